@@ -273,7 +273,7 @@ def publish_history(rec, lab, vf, rng, tasks, steps, case):
             return
         seen.setdefault(key, []).append(v)
         events.append((ctx, str(new)))
-        lab.refresh_exists([str(new)])
+        lab.refresh_exists([str(new)], configs=[lab.default_config])
     return events
 
 
@@ -289,14 +289,14 @@ def worker(args):
     if "replay" in args:
         c = args["replay"]
         rec.ev()
-        lab.new_universe(ents=c["ents"], names=c.get("names"))
+        lab.new_universe(ents=c["ents"], names=c.get("names"), only_default=c.get("only_default"))
         if "events" in c:
             from spil import WriteToPaths
             for ctx, new in c["events"]:
                 if new:
                     try:
                         WriteToPaths().create(new)
-                        lab.refresh_exists([new])
+                        lab.refresh_exists([new], configs=[lab.default_config])
                     except Exception:
                         pass
         judge_calls(rec, lab, vf, c["sid"], dict(c))
@@ -309,7 +309,7 @@ def worker(args):
         if sparse:
             rec.count("sparse_sets")
         uid = "%s-%d" % (args.get("seed"), u)
-        case = {"ents": ents, "names": lab.names, "uid": uid}
+        case = {"ents": ents, "names": lab.names, "only_default": lab.only_default, "uid": uid}
         cands = []
         for e in lab.full:
             t = lab.model.natural(e)
